@@ -8,7 +8,8 @@
        Jacobians are the stated products, the same in every requested subset (lminus and between have
        distinct code paths per subset).
    Together with C06 (Adj / Jr identities) this reduces every Jacobian to the statement "rjac is the
-   right Jacobian of exp"; that analytic statement is NOT proved here: it is tested on every run against
+   right Jacobian of exp"; that analytic statement is proved for SE2 in the generic branch (section (3) below:
+   C05_SE2_rjac_is_derivative, by differentiation of the closed form), and for the other groups it is tested on every run against
    forward differences (step 1e-30) of manif's own templates in 100-digit arithmetic (DESIGN.md, C05). *)
 From Coq Require Import Reals List Lra.
 From Manif Require Import Scalar Mat Group RInst Generic LieSpec SO2 SE2 SO3 SE3 SE23 SGal3 Rn
@@ -73,3 +74,27 @@ Theorem C05_tminus a b : J1 (t_minus G a b true true) = Some (mid (g_dof G)) /\
 Proof. split; reflexivity. Qed.
 End AnyGroup.
 Print Assumptions C05_subset_independent.
+
+(* (3) SE2: rjac IS the right Jacobian of exp (generic branch).  The model's exp and rjac are the closed forms below
+   whenever eps <= theta^2, and along every direction d the curve h -> exp(t + h d) has at h = 0 the left-trivialised
+   velocity u = rjac(t) d: position' = R(theta) (u1, u2), (cos, sin)' = (-sin, cos) u3. *)
+From Coquelicot Require Import Coquelicot.
+From Manif Require Import Jr_SE2.
+Theorem C05_SE2_exp_generic_form eps x y th : eps <= th * th -> se2_exp RS eps [x; y; th] = [ex x y th; ey x y th; cos th; sin th].
+Proof. exact (se2_exp_generic eps x y th). Qed.
+Theorem C05_SE2_rjac_generic_form eps x y th : eps <= th * th ->
+  se2_rjac RS eps [x; y; th] =
+  [[sin th / th; (1 - cos th) / th; (- y + th * x + y * cos th - x * sin th) / (th * th)];
+   [- ((1 - cos th) / th); sin th / th; (x + th * y - x * cos th - y * sin th) / (th * th)];
+   [0; 0; 1]].
+Proof. exact (se2_rjac_generic eps x y th). Qed.
+Theorem C05_SE2_rjac_is_derivative x y th dx dy dth : th <> 0 ->
+  let u1 := sin th / th * dx + (1 - cos th) / th * dy + (- y + th * x + y * cos th - x * sin th) / (th * th) * dth in
+  let u2 := - ((1 - cos th) / th) * dx + sin th / th * dy + (x + th * y - x * cos th - y * sin th) / (th * th) * dth in
+  let u3 := dth in
+  is_derive (fun h => ex (x + h * dx) (y + h * dy) (th + h * dth)) 0 (cos th * u1 - sin th * u2) /\
+  is_derive (fun h => ey (x + h * dx) (y + h * dy) (th + h * dth)) 0 (sin th * u1 + cos th * u2) /\
+  is_derive (fun h => cos (th + h * dth)) 0 (- sin th * u3) /\
+  is_derive (fun h => sin (th + h * dth)) 0 (cos th * u3).
+Proof. exact (se2_rjac_is_derivative x y th dx dy dth). Qed.
+Print Assumptions C05_SE2_rjac_is_derivative.
